@@ -94,12 +94,128 @@ RET_T = {'bool': 'Bool', 'int': 'Int', 'none': 'Unit', 'int*int': '(Int × Int)'
 
 
 class _Tr:
-    def __init__(self, spec: Spec, fname: str, globs: dict | None = None):
+    def __init__(self, spec: Spec, fname: str, globs: dict | None = None, owner: Any = None, local_defs: dict | None = None):
         self.spec = spec
         self.fname = fname
         self.tmp = 0
         self.globs = globs or {}  # the module the function lives in: named constants, one-line helpers
         self.inlining: list[str] = []
+        self.owner = owner  # the class of the method: `self.<helper>(…)` is looked up there
+        self.local_defs = local_defs or {}  # functions defined inside the translated one (closures)
+
+    # -- helpers of the translated function: inlined, so that extracting one is not a change ----------------
+    def norm(self, e: ast.AST) -> ast.AST:
+        """A copy of the expression with the module-level names that are plain numbers or slices replaced by
+        their value (`header[:MARKER_END]` with `MARKER_END = 16` is `header[:16]`): what the opaque inputs and the
+        constant expressions of a spec are matched on."""
+        globs = self.globs
+
+        class N(ast.NodeTransformer):
+            def visit_Name(self, n: ast.Name) -> ast.AST:
+                if isinstance(n.ctx, ast.Load) and n.id in globs:
+                    g = globs[n.id]
+                    if type(g) is int:
+                        return ast.copy_location(ast.Constant(value=g), n)
+                    if isinstance(g, slice) and all(x is None or type(x) is int for x in (g.start, g.stop, g.step)):
+                        c = lambda x: None if x is None else ast.Constant(value=x)  # noqa: E731
+                        return ast.copy_location(ast.Slice(lower=c(g.start), upper=c(g.stop), step=c(g.step)), n)
+                return n
+
+        import copy
+
+        return ast.fix_missing_locations(N().visit(copy.deepcopy(e)))
+
+    def callee_def(self, call: ast.Call) -> tuple[str, ast.FunctionDef, bool] | None:
+        """(name, definition, is_method) of a helper this call refers to: a function defined inside the translated
+        one, a method of the same class (`self.<m>(…)`), or a function of the same module."""
+        f = call.func
+        node: Any = None
+        name = ''
+        is_method = False
+        if isinstance(f, ast.Name):
+            name = f.id
+            if name in self.local_defs:
+                node = self.local_defs[name]
+            elif inspect.isfunction(self.globs.get(name)):
+                try:
+                    node = ast.parse(textwrap.dedent(inspect.getsource(self.globs[name]))).body[0]
+                except (OSError, TypeError, SyntaxError):
+                    node = None
+        elif isinstance(f, ast.Attribute) and isinstance(f.value, ast.Name) and f.value.id == 'self' and self.owner is not None and f.attr not in self.spec.methods and f.attr not in self.spec.effect_methods:
+            name = f.attr
+            m = inspect.getattr_static(self.owner, name, None)
+            m = getattr(m, '__func__', m)
+            if inspect.isfunction(m):
+                try:
+                    node = ast.parse(textwrap.dedent(inspect.getsource(m))).body[0]
+                    is_method = True
+                except (OSError, TypeError, SyntaxError):
+                    node = None
+        if not isinstance(node, ast.FunctionDef) or name in self.inlining:
+            return None
+        a = node.args
+        if a.vararg or a.kwarg or a.kwonlyargs or node.decorator_list:
+            return None
+        return name, node, is_method
+
+    def inline_call(self, call: ast.Call, env: dict[str, str]) -> tuple[str, str] | None:
+        """A call to a helper as an expression: its parameters are bound to the arguments (`let`), its body is
+        translated in place as a value — every path must end in `return <value>`, it may read the fields of `self`
+        and the opaque inputs, it may not assign a field nor raise.  None: not a helper this can do."""
+        found = self.callee_def(call)
+        if found is None or call.keywords:
+            return None
+        name, node, is_method = found
+        params = [a.arg for a in node.args.args]
+        if is_method:
+            if not params or params[0] != 'self':
+                return None
+            params = params[1:]
+        if len(call.args) != len(params):
+            return None
+        body = [b for b in node.body if not (isinstance(b, ast.Expr) and isinstance(b.value, ast.Constant) and isinstance(b.value.value, str))]
+        if len(body) == 1 and isinstance(body[0], ast.Return) and body[0].value is not None:
+            # one expression: the arguments are put in place of the parameters (so that what the expression reads
+            # of the outside world is recognised by its text, as if it had been written at the call)
+            import copy
+
+            sub = dict(zip(params, call.args))
+
+            class S(ast.NodeTransformer):
+                def visit_Name(self, n: ast.Name) -> ast.AST:
+                    if isinstance(n.ctx, ast.Load) and n.id in sub:
+                        return copy.deepcopy(sub[n.id])
+                    return n
+
+            inner = ast.fix_missing_locations(S().visit(copy.deepcopy(body[0].value)))
+            self.inlining.append(name)
+            try:
+                return self.expr(inner, env)
+            finally:
+                self.inlining.pop()
+        binds = []
+        env2: dict[str, str] = {}
+        for pn, a in zip(params, call.args):
+            v, t = self.expr(a, env)
+            binds.append(f'let v_{pn} : {LEAN_T[t]} := {v}')
+            env2[pn] = t
+        self.inlining.append(name)
+        saved = self.spec
+        try:
+            last: Exception | None = None
+            for rt in ('bool', 'int'):
+                import dataclasses
+
+                self.spec = dataclasses.replace(saved, pure=True, ret=rt, params={}, attr_params=dict(saved.attr_params), slice_fields=False, tuple_result=None, refusal_returns=False, return_map={}, refusal_calls=())
+                try:
+                    term = self.block(body, [], env2, 0)
+                    return '(' + '; '.join(binds + [term.strip().replace('\n', ' ')]) + ')', rt
+                except Unsupported as e:
+                    last = e
+            raise Unsupported(f'helper {name}: {last}')
+        finally:
+            self.spec = saved
+            self.inlining.pop()
 
     def helper_body(self, name: str) -> ast.expr | None:
         """`name` is a module-level function without parameters whose body is `return <expr>` (after an
@@ -122,7 +238,7 @@ class _Tr:
     def expr(self, e: ast.AST, env: dict[str, str]) -> tuple[str, str]:
         sp = self.spec
         if sp.opaque or sp.const_exprs:
-            src = ast.unparse(e)
+            src = ast.unparse(self.norm(e)) if isinstance(e, ast.expr) else ast.unparse(e)
             if src in sp.opaque:
                 name, t = sp.opaque[src]
                 return f'x_{name}', t
@@ -193,6 +309,10 @@ class _Tr:
             return f'({e.func.id} {a} {b})', 'int'
         if isinstance(e, ast.Call) and _dotted(e.func) in sp.identity_calls and len(e.args) == 1 and not e.keywords:
             return self.expr(e.args[0], env)
+        if isinstance(e, ast.Call):
+            got = self.inline_call(e, env)
+            if got is not None:
+                return got
         if isinstance(e, ast.Call):
             # int(time.time())
             if isinstance(e.func, ast.Name) and e.func.id == 'int' and len(e.args) == 1 and not e.keywords:
@@ -386,6 +506,8 @@ class _Tr:
                 env2[tgt.id] = t
                 return pad + f'let v_{tgt.id} : {LEAN_T[t]} := {v}\n' + self.block(tail, [], env2, ind)
             if isinstance(tgt, ast.Attribute) and isinstance(tgt.value, ast.Name) and tgt.value.id == 'self':
+                if sp.pure:
+                    raise Unsupported(f'{self.fname}: a helper used as a value assigns self.{tgt.attr}')
                 if tgt.attr not in sp.fields:
                     raise Unsupported(f'self.{tgt.attr} is not a declared field')
                 ft = sp.fields[tgt.attr]
@@ -572,7 +694,13 @@ def translate(fn: Any, spec: Spec, lean_name: str | None = None, nested: str | N
     for a in rest:
         if a not in spec.params and a not in objs and a not in spec.object_params:
             raise Unsupported(f'parameter {a} of {fdef.name} is not declared in the spec')
-    tr = _Tr(spec, fdef.name, getattr(fn, '__globals__', None))
+    owner = None
+    qn = getattr(fn, '__qualname__', '')
+    if '.' in qn and '<locals>' not in qn:
+        owner = getattr(inspect.getmodule(fn), qn.split('.')[0], None)
+    local_defs = {n.name: n for n in fdef.body if isinstance(n, ast.FunctionDef)}
+    fdef.body = [n for n in fdef.body if not isinstance(n, ast.FunctionDef)]
+    tr = _Tr(spec, fdef.name, getattr(fn, '__globals__', None), owner, local_defs)
     left_out: list[str] = []
     if spec.slice_fields:
         full = list(fdef.body)
